@@ -54,8 +54,15 @@ def main():
         t = sh([PY, "-m", "pytest", "-q", "-x", "-p", "no:cacheprovider", "ciw/tests"], cwd=repo)
         meta["tests_pass_with_change"] = t.returncode == 0
         print("tests with change:", t.stdout.strip().splitlines()[-1] if t.stdout.strip() else t.stderr[-300:])
-        d0 = sh([PY, os.path.abspath(demo), "/repo"], timeout=600)
-        d1 = sh([PY, os.path.abspath(demo), repo], timeout=600)
+        # demos locate ciw via argv[1], PYTHONPATH, cwd or ../../ relative to themselves: satisfy all four
+        un = os.path.join(tmp, "unchanged")
+        os.makedirs(os.path.join(un, "out", "A"))
+        os.symlink("/repo/ciw", os.path.join(un, "ciw"))
+        os.makedirs(os.path.join(repo, "out", "A"), exist_ok=True)
+        shutil.copy(demo, os.path.join(un, "out", "A", "demo.py"))
+        shutil.copy(demo, os.path.join(repo, "out", "A", "demo.py"))
+        d0 = sh([PY, os.path.join(un, "out", "A", "demo.py"), "/repo"], timeout=600, env=dict(os.environ, PYTHONPATH="/repo"), cwd=un)
+        d1 = sh([PY, os.path.join(repo, "out", "A", "demo.py"), repo], timeout=600, env=dict(os.environ, PYTHONPATH=repo), cwd=repo)
         meta["demo_on_unchanged"] = d0.returncode
         meta["demo_on_changed"] = d1.returncode
         print("demo unchanged: exit %d %s | changed: exit %d %s" % (d0.returncode, d0.stdout.strip()[-80:], d1.returncode, d1.stdout.strip()[-160:]))
